@@ -147,6 +147,16 @@ def run(replay=None):
                             ('globally: no a {- %s < y} within %s s', 'property'), ('globally: some b within %s ms', 'property'),
                             ('# id: n1\nglobally: no a {abs(%s) = z}', 'specification')):
             add('P1', P1, entry, tmpl.replace('%s', nsp))
+    # (b'''') every built-in function applied to every kind of argument the grammar can spell (one argument): whatever is
+    # wrong with the call, the outcome is a documented error
+    from hpl.ast.expressions import BuiltinFunction
+    fnames = sorted({m.value.name for m in BuiltinFunction})
+    for fn in fnames:
+        for arg in ('x', '1', '"s"', 'True', '{1, 2}', '[1 to 2]', '@v', 'xs[0]', 'x + 1', 'not p', '- y', 'm.f', 'len(xs)', '{x}', 'PI'):
+            add('P1', P1, 'expression', '%s(%s)' % (fn, arg))
+            add('P1', P1, 'condition', '%s(%s) > 0 or q' % (fn, arg))
+        add('P1', P1, 'predicate', '{ %s(x) = %s(y) }' % (fn, fn))
+        add('P1', P1, 'property', 'globally: no a {%s(z) > 0}' % fn)
     # (c) raw unicode / structured noise (the spec only classifies the outcomes)
     chars = ['a', '1', ' ', '{', '}', '(', ')', '"', '\\', '@', '#', '\n', '\t', 'é', '中', '\U0001f600', '\x00', '.', ':',
              '[', ']', '!', '=', '-', '/', '~', '$', '%', "'", '​', 'E', 'e', '+']
